@@ -1,4 +1,5 @@
 import DclabModel.Model.Stats
+import DclabModel.Gen.StatsTable
 import DclabModel.DriveUtil
 /-! Line-protocol driver for the statistics model (C12).
 Values: exact rationals `p/q`, `nan`, `+inf`, `-inf`; masks: bit strings (`-` = empty).
@@ -13,6 +14,13 @@ Values: exact rationals `p/q`, `nan`, `+inf`, `-inf`; masks: bit strings (`-` = 
     pct <q> <v> …            → rational | nan   (np.percentile, linear; invalid values purged)
     kdepos <x> … ; <y> …     → bit string of `bad_in` and number of valid pairs
     view <scale lin|log> <mask> <v> …   → selected values (log maps every value to `L(v)`: printed as `L:<v>`)
+    medianp <v> …            → rational | nan   (median written as the 50th percentile)
+    registry                 → the regenerated registry `name:0|1 …` (spaces in names as `_`)
+    defaults                 → `defaultMethods registry`
+    getstat <enable> <mask> <flow|nan> <methods m,m,…|*> ; <n>:<cbrt(n)> … ; <feat> <v …|-> ; <feat> … →
+                               `get_statistics`: `keyerror` or slots `method feature|- value` joined by ` | `
+                               (value: rational | nan; SD is reported as the variance: the driver
+                               instantiates `FP.sqrt` with the identity; `FP.cbrt` is the table given)
 -/
 open DclabModel.Stats DclabModel.DriveUtil DclabModel.Export
 
@@ -46,8 +54,54 @@ def pairUp : List Val → List (Val × Val)
   | a :: b :: t => (a, b) :: pairUp t
   | _ => []
 
+def encName (s : String) : String := s.replace " " "_"
+def decName (s : String) : String := s.replace "_" " "
+
+def parseCbrt (ws : List String) : Option (List (Nat × Rat)) :=
+  ws.mapM fun w => match w.splitOn ":" with
+    | [n, r] => do
+      let n ← n.toNat?
+      let r ← parseRat? r
+      some (n, r)
+    | _ => none
+
+def parseFeat (ws : List String) : Option (String × Option (List Val)) :=
+  match ws with
+  | [name, "-"] => some (name, none)
+  | name :: vs => (parseVals vs).map fun v => (name, some v)
+  | [] => none
+
+def showSlot (s : Slot) : String :=
+  encName s.method ++ " " ++ (s.feature.getD "-") ++ " " ++
+    (match s.value with
+     | none => "unmodelled"
+     | some v => showOpt v)
+
 def handle (u : Unit) (line : String) : Unit × String :=
   match words line with
+  | "medianp" :: vs =>
+    match parseVals vs with
+    | some v => (u, showOpt (medianP (fins v)))
+    | none => (u, "bad-op")
+  | ["registry"] =>
+    (u, joinWith " " (DclabModel.Gen.StatsTable.registry.map fun e =>
+      encName e.1 ++ ":" ++ (if e.2 then "1" else "0")))
+  | ["defaults"] =>
+    (u, joinWith " " ((defaultMethods DclabModel.Gen.StatsTable.registry).map encName))
+  | "getstat" :: en :: mask :: flow :: meths :: ";" :: rest =>
+    match splitSemi rest with
+    | cb :: fs =>
+      match parseCbrt cb, fs.mapM parseFeat, parseVal flow with
+      | some cb, some fs, some fl =>
+        let fp : FP := ⟨id, fun n => (cb.lookup n).getD 1⟩
+        let ms : Option (List String) :=
+          if meths = "*" then none else some ((meths.splitOn ",").map decName)
+        let fl : Option Rat := match fl with | .fin q => some q | _ => none
+        match getStatistics fp DclabModel.Gen.StatsTable.registry ms fs (en == "1") (maskOf mask) fl with
+        | none => (u, "keyerror")
+        | some out => (u, joinWith " | " (out.map showSlot))
+      | _, _, _ => (u, "bad-op")
+    | _ => (u, "bad-op")
   | "stat" :: meth :: en :: mask :: vs =>
     match parseVals vs with
     | some v =>
